@@ -42,12 +42,29 @@ CheckEnc(r) ==
   ELSE IF r.out.res = "ok" THEN (IF SameOutcome(r.out, r.reff) THEN "ok" ELSE "value-from-truncated-input")
   ELSE IF r.cap >= hi THEN (IF SameOutcome(r.out, r.reff) THEN "ok" ELSE "affected-by-a-cap-it-fits-under")
   ELSE "ok"
+(* typed requests (strings through deserialize_str / deserialize_string, field names, numbers, chars; tagged and untagged): *)
+(* every entry point gives the outcome of from_str                                                                          *)
+CheckAgree(r) == IF \A j \in 2..Len(r.outs) : SameOutcome(r.outs[j][2], r.outs[1][2]) THEN "ok" ELSE "entry-points-disagree"
+(* a typed iterator / typed reader over an input that ends with a fault, inside a code point or over the cap: the call   *)
+(* must report it, and every value yielded before is the value of that document in the complete text - never one built  *)
+(* from the truncated prefix                                                                                             *)
+RECURSIVE OkPrefix(_, _, _)
+OkPrefix(items, refs, j) == IF j > Len(items) \/ items[j] = "ERR" THEN TRUE
+                            ELSE j <= Len(refs) /\ items[j] = refs[j] /\ OkPrefix(items, refs, j + 1)
+CheckTypedFault(r) ==
+  LET x == Expected(r.ws, r.avail, r.ending, r.cap) IN
+  IF x.end = "eof" THEN "ok"                          \* a clean (possibly shorter) input: nothing to swallow
+  ELSE IF r.single.res # "err" THEN "fault-swallowed"
+  ELSE IF ~\E j \in 1..Len(r.items) : r.items[j] = "ERR" THEN "fault-swallowed-by-the-iterator"
+  ELSE IF ~OkPrefix(r.items, r.ref_items, 1) THEN "value-from-truncated-input"
+  ELSE "ok"
 CheckDrain(r) == IF r.out.res # "err" THEN "cap-ignored" ELSE IF r.pulled > r.cap + Allowance THEN "drained-past-cap" ELSE "ok"
 (* writer: a failing writer makes serialization fail, and what was accepted is a prefix of the fault-free output *)
 CheckWriter(r) == IF r.res # "err" THEN "write-fault-swallowed"
                   ELSE IF Len(r.received) > Len(r.full) \/ SubSeq(r.full, 1, Len(r.received)) # r.received THEN "not-a-prefix"
                   ELSE "ok"
-Check(r) == CASE r.kind = "sched" -> CheckSched(r) [] r.kind = "writer" -> CheckWriter(r) [] r.kind = "borrow" -> CheckBorrow(r) [] r.kind = "drain" -> CheckDrain(r) [] r.kind = "enc" -> CheckEnc(r) [] OTHER -> "ok"
+Check(r) == CASE r.kind = "sched" -> CheckSched(r) [] r.kind = "writer" -> CheckWriter(r) [] r.kind = "borrow" -> CheckBorrow(r) [] r.kind = "drain" -> CheckDrain(r) [] r.kind = "enc" -> CheckEnc(r) [] r.kind = "agree" -> CheckAgree(r)
+                 [] r.kind = "typed-fault" -> CheckTypedFault(r) [] OTHER -> "ok"
 Init == l = 1 /\ TLCSet(1, 0)
 Next == /\ l <= Len(Recs)
         /\ LET r == Recs[l]  c == Check(r) IN
